@@ -7,7 +7,10 @@ IDENT = re.compile(r'^[A-Za-z_][A-Za-z0-9_]*$')
 KEYWORDS = {'int', 'bool', 'clock', 'chan', 'const', 'void', 'return', 'true', 'false', 'system', 'forall', 'if', 'else', 'for', 'while', 'broadcast', 'urgent', 'struct', 'typedef', 'double'}
 
 # blocks of the base model as token lists (an accepted model)
-def base_blocks(rng):
+SYSTEM_LISTS = ['P , Q , R', 'P < Q < R', 'P , Q < R', 'R < P , Q', 'Q , R']
+
+
+def base_blocks(rng, sysl=None):
     return [
         ('gdecl', 'declaration', 'decl', 'int i , j ; bool b ; clock x , y ; chan c ; const int N = 3 ; int arr [ N ] ; int f ( int p ) { return p + N ; }'.split()),
         ('t1param', 'template[1]/parameter', 'decl', 'const int id , int [ 0 , 3 ] r'.split()),
@@ -22,7 +25,8 @@ def base_blocks(rng):
         ('t2decl', 'template[2]/declaration', 'decl', 'int m ;'.split()),
         ('t2guard', 'template[2]/transition[1]/label[1]', 'guard', 'm < N || b'.split()),
         ('t2sync', 'template[2]/transition[1]/label[2]', 'sync', 'c ?'.split()),
-        ('system', 'system', 'decl', 'P = T1 ( 1 , 2 ) ; Q = T2 ( ) ; system P , Q ;'.split()),
+        # the process list with and without priorities (each separator is a production of its own)
+        ('system', 'system', 'decl', ('P = T1 ( 1 , 2 ) ; Q = T2 ( ) ; R = T2 ( ) ; system %s ;' % (sysl or rng.choice(SYSTEM_LISTS))).split()),
     ]
 
 
@@ -294,6 +298,17 @@ def check(run):
                         texts[n2] = layout(ft if n2 == bname else t2, rng, ('lines' if (fault == 'unterminated-comment' and n2 == bname and style in ('comments', 'mixed')) else style))
                     shape = pick_shape(rng)
                     cases.append(dict(block=bname, path='/nta/' + adjust(bpath, shape), kind=kind, fault=fault, pos=pos, texts=texts, style=style, xml=render(texts, shape), tokens=ft))
+    # every name of the process list, behind each kind of separator, replaced by an undeclared one
+    for sysl in SYSTEM_LISTS:
+        blocks = base_blocks(rng, sysl)
+        toks = blocks[-1][3]
+        for pos in range(toks.index('system') + 1, len(toks)):
+            ft = inject(toks, 'decl', 'undeclared', pos, rng)
+            if ft is None:
+                continue
+            style = rng.choice(styles)
+            texts = {n2: layout(ft if n2 == 'system' else t2, rng, style) for (n2, p2, k2, t2) in blocks}
+            cases.append(dict(block='system', path='/nta/system', kind='decl', fault='undeclared', pos=pos, texts=texts, style=style, xml=render(texts), tokens=ft))
     # string literals: the one lexeme that may contain line ends without being a line-end rule
     for lit, nm in (('"ab"', 'string'), ('"a\nb"', 'string-multiline'), ('"a\nb\nc"', 'string-multiline')):
         blocks = base_blocks(rng)
